@@ -295,6 +295,15 @@ namespace BitSerializer::Convert::Utf
 						}
 					}
 				}
+				// Surrogate code points and values above U+10FFFF are not valid UTF-32
+				else if (sym > 0x10FFFF || UnicodeTraits::IsInSurrogatesRange(sym))
+				{
+					++invalidSequencesCount;
+					if (!Detail::HandleEncodingError(outStr, errorPolicy, errorMark)) {
+						return UtfEncodingResult(UtfEncodingErrorCode::InvalidSequence, startTailPos, invalidSequencesCount);
+					}
+					continue;
+				}
 
 				if (sym < 0x800)
 				{
